@@ -56,16 +56,42 @@ async def explore(tier, seed):
             pool.append(("unknown-op", q, "Nope", None))
             pool.append(("invalid", q.replace("{", "{ nope_field ", 1), ops[0][1], None))
             pool.append(("syntax", q[: len(q) // 2] + " {", None, None))
+            # documents refused for a fragment cycle (validators keep per-rule state between documents)
+            try:
+                from violations import Catalogue
+                for q2 in (Catalogue(sg, rng).m_fragment_cycle(q) or [])[:2]: pool.append(("cyclic", q2, ops[0][1], None))
+            except Exception:
+                pass
         pool.append(("junk", "", None, None)); pool.append(("junk", "{", None, None))
         for hi in range(nhist):
             hist = [rng.choice(pool) for _ in range(rng.randint(6, 25))]
             # repetition on purpose
             hist += [hist[rng.randrange(len(hist))] for _ in range(4)]
-            ref = await er.build_engine(sg.model(), renv, engine_kwargs={"query_cache_decorator": None})   # fresh, uncached
-            expected = []
-            for kind, q, opn, variables in hist:
-                r = await ref.engine.execute(q, operation_name=opn, variables=variables)
-                expected.append(canon(r))
+            # reference: every distinct request of the history on ITS OWN fresh uncached engine (no history at all), once in a
+            # shuffled order and once in the reverse order: state that survives outside the engine (validator singletons, memoised
+            # helper results) would make the two reference passes disagree, or the history differ from them
+            def hkey(h): return json.dumps([h[1] if isinstance(h[1], str) else repr(h[1]), h[2], h[3]], sort_keys=True, default=str)
+            uniq = {}
+            for h in hist: uniq.setdefault(hkey(h), h)
+            order = list(uniq); rng.shuffle(order)
+            passes = []
+            for od in (order, order[::-1]):
+                res = {}
+                for k_ in od:
+                    kind, q, opn, variables = uniq[k_]
+                    ref = await er.build_engine(sg.model(), renv, engine_kwargs={"query_cache_decorator": None})
+                    try:
+                        res[k_] = canon(await ref.engine.execute(q, operation_name=opn, variables=variables))
+                    except Exception as e:
+                        res[k_] = f"raised {type(e).__name__}: {e}"
+                passes.append(res)
+            for k_ in order:
+                if passes[0][k_] != passes[1][k_]:
+                    stats["problems"].append({"what": ["the same request on a fresh uncached engine is answered differently depending on which requests the process answered before"],
+                                              "request": {"query": uniq[k_][1] if isinstance(uniq[k_][1], str) else repr(uniq[k_][1]), "operation_name": uniq[k_][2], "variables": uniq[k_][3]},
+                                              "first_pass": passes[0][k_][:600], "second_pass": passes[1][k_][:600], "sdl": print_sdl(sg.model()) if False else None})
+                    break
+            expected = [passes[0][hkey(h)] for h in hist]
             for cname, kw in (CONFIGS if tier != "quick" else rng.sample(CONFIGS, 3)):
                 kw = dict(kw)
                 if cname.startswith("lru-"): kw["query_cache_decorator"] = lru_cache(maxsize=int(cname[4:]))
@@ -104,7 +130,7 @@ if __name__ == "__main__":
                      "build_log_tail": b["build_log"][-1500:], "responses_checked": stats["evaluations"]}, no_input=True)
     cov = fw.proof_coverage(b, {
         "evaluations": stats["evaluations"], "distinct_nontrivial": len(stats["nontrivial"]),
-        "rule": "request histories (6-29 requests with deliberate repetitions) over a pool of valid requests (several operations / variables per document), bytes spellings, unknown operation names, validation-refused and syntactically broken texts, on engines with the default LRU(512), lru_cache(1), lru_cache(2), a custom dict decorator and a disabled cache; every response compared position by position with a fresh uncached engine; non-trivial = response to a text already seen earlier in the same history (a potential cache hit)",
+        "rule": "request histories (6-29 requests with deliberate repetitions) over a pool of valid requests (several operations / variables per document), bytes spellings, unknown operation names, validation-refused (unknown field, fragment cycles) and syntactically broken texts, on engines with the default LRU(512), lru_cache(1), lru_cache(2), a custom dict decorator and a disabled cache; every response compared position by position with the answer of a fresh uncached engine that has seen NO other request (reference computed twice, in two different orders, which must agree); non-trivial = response to a text already seen earlier in the same history (a potential cache hit)",
         "histories": stats["histories"], "kinds": stats["kinds"], "problems": len(stats["problems"]), "samples": stats["samples"] or [{"note": "none"}]})
     sys.exit(v.finish("proof", cov, ["parse_and_validate_query is deterministic and its cached results are never mutated: established by this differential run, not proved (partial)",
                                      "functools.lru_cache modelled from its documented behaviour"]))
